@@ -180,6 +180,7 @@ def reindex_database(
     error_files = error_file_whitelist.read_text().split("\n")
 
     num_of_updates = 0
+    pending_write_backs: list[str] = []
     if cmd.paths:
         # Only some files were looked at, so keep what we know about the rest.
         file_to_hash = old_file_to_hash | file_to_hash
@@ -241,10 +242,23 @@ def reindex_database(
             _check_for_modified_notes(cmd.zettel_dir, zorg_page, old_zorg_page)
             _LOGGER.debug("Adding zorg file", file=zorg_page_name)
             session.repo.add_file(zorg_page)
+            if zorg_page.events:
+                pending_write_backs.append(zorg_page_name)
             session.commit()
 
     if num_of_updates == 0:
         c.zprint("NO ZORG FILES HAVE BEEN MODIFIED")
+
+    # These files are about to be rewritten (new ZIDs / modify dates), which
+    # also records their new hash (see _update_zo_file). Until then they keep
+    # their old hash, so if we get interrupted before that happens, the next
+    # 'db reindex' processes them again instead of leaving the index and the
+    # files out of sync.
+    for zorg_page_name in pending_write_backs:
+        if zorg_page_name in old_file_to_hash:
+            file_to_hash[zorg_page_name] = old_file_to_hash[zorg_page_name]
+        else:
+            del file_to_hash[zorg_page_name]
 
     _write_file_hash_to_disk(file_hash_path, file_to_hash)
     error_file_whitelist.write_text("\n".join(sorted(error_files)))
